@@ -35,6 +35,11 @@ CFG = gen.Cfg(max_depth=3, leaf_dtypes=("int64", "float64", "bool", "int32", "ui
 # nodes are met often (added after the seeded change C02-a - combinations at axis >= 2 below an offsets[0] != 0 list - was missed)
 CFG_DEEP = gen.Cfg(max_depth=3, leaf_dtypes=("int64", "float64", "int32"), nan=False, records=False, unions=False, strings=False, unknown=False,
                    top_list=True, zero_field_records=False)
+# the shared catalogue plus "the array merged with itself" (added after the seeded change C02-b - a wrong base for what
+# follows an IndexedArrayU32 operand in mergemany - was missed by this check)
+ALL_FAMILIES = ["getitem_at", "getitem_range", "getitem", "num", "flatten", "localindex", "reduce", "sort", "argsort", "rpad", "rpad_and_clip",
+                "combinations", "simplify", "deep_copy", "tojson", "carry", "numbers_to_type", "type", "form", "validity", "fillna", "purelist",
+                "mergeself", "mergeself"]
 AXIS_FAMILIES = ["num", "flatten", "localindex", "reduce", "sort", "argsort", "rpad", "rpad_and_clip", "combinations"]
 
 
@@ -46,7 +51,7 @@ def strategy_(draw):
     vals = draw(gen.values(T, cfg))
     a = draw(gen.encode(T, vals, cfg))
     b = gen.canonical(T, vals) if draw(st.integers(0, 3)) > 0 else draw(gen.encode(T, vals, cfg))
-    spec = draw(ops.draw_op(T, vals, AXIS_FAMILIES if deep else FAMILIES))
+    spec = draw(ops.draw_op(T, vals, AXIS_FAMILIES if deep else (FAMILIES or ALL_FAMILIES)))
     return {"a": a, "b": b, "spec": spec}
 
 
